@@ -104,7 +104,9 @@ static std::vector<CheckDef> g_checks = {
           "register-poisoning trampoline; rsp, rbx, rbp, r12-r15, DF, MXCSR control bits, x87 CW and 64 canary bytes above the callee's frame "
           "are compared after each call; distinct_nontrivial: distinct workload states (as C08) plus distinct (entry, bound target) pairs for "
           "the resolvers",
-          { "exit paths are reached through the workloads' histories and length classes, not enumerated from the source" } },
+          { "exit paths are reached through the workloads' histories and length classes, not enumerated from the source",
+            "a second pass runs the FIPS gate enumeration of the FIPS_MODE archive through the same trampoline (gated wrappers and the status helper)" },
+          { { "fipsgate", 1 } }, 8000, 400000 },
         { "C20", "exploration", { { "hashmgr", 3 }, { "stream", 4 }, { "oneshot", 3 }, { "l2mgr", 2 }, { "streamhuge", 0, 8 } }, 24000, 2400000, 50, 900, true, false,
           "cases: every plan of the mixed batch is executed twice with different hidden seeds (output prefill, uninitialised object memory, bytes "
           "beyond len, caller-saved/vector/mask registers, flags, 64 KiB dead stack) and identical schedule/transport/fault streams and "
